@@ -26,7 +26,7 @@ func ruleOneTimezoneSource(c *Ctx) {
 			if !ok || CalleeName(info, call) != "time.Date" || len(call.Args) != 8 {
 				return true
 			}
-			// year origin: January 1st 00:00:00.0
+
 			if objKey(info, call.Args[1]) != "time.January" {
 				return true
 			}
@@ -49,7 +49,7 @@ func ruleOneTimezoneSource(c *Ctx) {
 				lc, ok := loc.(*ast.CallExpr)
 				return ok && CalleeName(info, lc) == "(time.Time).Location"
 			}():
-				// Location() of a time that was converted to the system zone in this function
+
 				lc := loc.(*ast.CallExpr)
 				sel, _ := unparen(lc.Fun).(*ast.SelectorExpr)
 				ok := false
@@ -63,6 +63,7 @@ func ruleOneTimezoneSource(c *Ctx) {
 							}
 							return true
 						})
+
 					}
 				}
 				if ok {
@@ -77,6 +78,7 @@ func ruleOneTimezoneSource(c *Ctx) {
 			}
 			return true
 		})
+
 	}
 	// floors kept low on purpose: a refactor may legitimately compute fewer year origins
 	c.Floor(rule, "utils/io, executor, planner", "year-origin time.Date sites", n, 2)
